@@ -13,9 +13,10 @@ case "$pkg" in *root*) pkg=. ;; esac
 cp $D/demo_test.go $W/$pkg/zz_demo_test.go
 cd $W
 tests=$(grep -o '^func Test[A-Za-z0-9_]*' $pkg/zz_demo_test.go | sed 's/func //' | paste -sd'|')
-r1=FAIL; go test -vet=off -count=1 -run "^($tests)\$" ./$pkg > /tmp/cm-$N-1.log 2>&1 && r1=PASS
+RACE=""; grep -q "go:build race" $pkg/zz_demo_test.go && RACE=-race
+r1=FAIL; go test $RACE -vet=off -count=1 -run "^($tests)\$" ./$pkg > /tmp/cm-$N-1.log 2>&1 && r1=PASS
 git apply $D/patch.diff || { echo "patch does not apply" > $D/confirm.txt; exit 1; }
-r2=FAIL; go test -vet=off -count=1 -run "^($tests)\$" ./$pkg > /tmp/cm-$N-2.log 2>&1 && r2=PASS
+r2=FAIL; go test $RACE -vet=off -count=1 -run "^($tests)\$" ./$pkg > /tmp/cm-$N-2.log 2>&1 && r2=PASS
 rm $pkg/zz_demo_test.go
 r3=$(/root/scratch/t.sh | tail -1)
 echo "demo-without-change=$r1 demo-with-change=$r2 suite-with-change=$r3 tests=$tests pkg=$pkg commit=$(git -C /repo rev-parse --short HEAD)" | tee $D/confirm.txt
